@@ -85,6 +85,23 @@ def run(rep, tier, rng):
         cases.append("200000 | 7 8 9 | | std | | use.std::crypto::hashes::native begin %s push.%d push.%d exec.native::hash_memory end" % (store, start + nw, start))
         queries.append("rpo " + " ".join(map(str, els)))
         meta.append(("native::hash_memory", 7, "rev789"))
+    # sha256::hash_memory: message lengths around the padding boundaries (the program is the one the standard
+    # library's own test uses to lay the message out in memory)
+    SHA_MEM = ("use.std::crypto::hashes::sha256 begin push.10000 mem_store.0 mem_store.1 "
+               "mem_load.1 u32assert u32overflowing_add.3 assertz u32assert u32div.4 mem_store.2 "
+               "mem_load.2 u32assert neq.0 while.true mem_load.0 mem_storew dropw "
+               "mem_load.0 u32assert u32overflowing_add.1 assertz mem_store.0 "
+               "mem_load.2 u32assert u32overflowing_sub.1 assertz dup mem_store.2 u32assert neq.0 end "
+               "mem_load.1 push.10000 exec.sha256::hash_memory end")
+    lens = [0, 1, 3, 4, 31, 32, 54, 55, 56, 57, 63, 64, 65, 119, 120, 121, 127, 128] if tier == "quick" else list(range(0, 260))
+    for L in lens:
+        rr = r.fork("shm%d" % L)
+        b = bytes(rr.below(256) for _ in range(L))
+        pb = b + bytes((4 - L % 4) % 4)
+        w = [int.from_bytes(pb[j:j + 4], "big") for j in range(0, len(pb), 4)]
+        cases.append("4000000 | %d %s | | std | | %s" % (L, " ".join(map(str, w)), SHA_MEM))
+        queries.append("sha256 0")       # placeholder: the reference for arbitrary lengths is hashlib
+        meta.append(("sha256::hash_memory", 8, ("hashlib", words_be(hashlib.sha256(b).digest()))))
     outs = common.run_impl("masm", cases, tag="c17")
     refs = common.run_model("refhash", queries, tag="c17m")
     for (nm, k, extra), c, q, x, y in zip(meta, cases, queries, outs, refs):
@@ -92,6 +109,8 @@ def run(rep, tier, rng):
         if not y.startswith("OK"):
             raise common.BuildError("reference model failed on %s: %s" % (q, y))
         want = [int(v) for v in y[3:].split(",")]
+        if isinstance(extra, tuple) and extra[0] == "hashlib":
+            want, extra = extra[1], None
         if isinstance(extra, list) and extra != want:
             rep.violation("the SHA-256 reference model disagrees with hashlib", {"kind": "correspondence", "family": "refhash", "case": q, "model": y, "hashlib": extra})
             found = True
